@@ -33,7 +33,7 @@ func (c20) Assumptions() []string {
 }
 func (c20) NumCases(tier string) int      { return tierN(tier, 3000, 200000) }
 func (c20) NumRaceCases(tier string) int  { return tierN(tier, 240, 6000) }
-func (c20) MinNontrivial(tier string) int { return tierN(tier, 1000, 20000) }
+func (c20) MinNontrivial(tier string) int { return tierN(tier, 200, 3000) }
 
 // ---------------------------------------------------------------------------------------------
 // (a) race workload
